@@ -36,6 +36,13 @@ def chain_ok(lst):
     return all(a[0] + a[1] <= b[0] for a, b in zip(s, s[1:])) and all(x[1] >= 0 for x in s)
 
 
+def wide_ok(lst):
+    """non-negative durations and no two events overlap for a positive time (the wide domain of
+    C09_intersect_*_wide; contains chain_ok)"""
+    return all(x[1] >= 0 for x in lst) and all(
+        not (max(a[0], b[0]) < min(a[0] + a[1], b[0] + b[1])) for i, a in enumerate(lst) for b in lst[i + 1:])
+
+
 def lists_upto(ivs, k, only_chains=False):
     out = [()]
     for n in range(1, k + 1):
@@ -79,6 +86,12 @@ def gen_grid(rng, tier):
     any2 = lists_upto(iv6, 2)                           # arbitrary lists <=2 a side on 0..6
     any3 = lists_upto(iv4, 3)                           # arbitrary lists <=3 on 0..4
     any2_4 = lists_upto(iv4, 2)
+    wide3 = [t for t in lists_upto(grid_intervals(5), 3) if wide_ok(t) and not chain_ok(t)]   # zero-length inside/at start of a positive one
+    for _ in range(300000 if tier == "thorough" else 2000):
+        a, b = rng.choice(wide3), rng.choice(wide3 if rng.random() < 0.5 else chains3)
+        if rng.random() < 0.5:
+            a, b = b, a
+        yield ("isect", mk_specs(a, 1000, 1), mk_specs(b, 1000, 2))
     if tier == "thorough":
         chains2 = [c for c in chains3 if len(c) <= 2]
         for a in chains3:
@@ -238,7 +251,7 @@ def oracle_isect(va, vb, res, mod, labels):
     if res[0] != 0:
         return f"raises: error class {res[1]}"
     out = res[1]
-    in_domain = chain_ok([(t, d) for _, t, d, _ in va]) and chain_ok([(t, d) for _, t, d, _ in vb])
+    in_domain = wide_ok([(t, d) for _, t, d, _ in va]) and wide_ok([(t, d) for _, t, d, _ in vb])
     expected = []
     touching = []
     for (i, t, d, x) in va:
@@ -409,7 +422,8 @@ def main(argv=None):
         if kind == "isect":
             posov = any(max(t, t2) < min(t + d, t2 + d2) for _, t, d, _ in va for _, t2, d2, _ in vb)
             dom = chain_ok([(t, d) for _, t, d, _ in va]) and chain_ok([(t, d) for _, t, d, _ in vb])
-            ck.count("isect-in-domain" if dom else "isect-outside-domain")
+            wdom = wide_ok([(t, d) for _, t, d, _ in va]) and wide_ok([(t, d) for _, t, d, _ in vb])
+            ck.count("isect-in-A1-domain" if dom else ("isect-in-wide-domain-only" if wdom else "isect-outside-domain"))
             ck.note_case(rel, nontrivial=posov)
             if not unaligned:
                 bad = oracle_isect(va, vb, res, mod, labels)
@@ -482,7 +496,9 @@ def main(argv=None):
         "event data enters the model as harness-assigned labels (one per Python == class); {} has its own label, "
         "passed to the model's period_union",
         "intersection theorems: both lists, after the function's own stable sort by timestamp, have non-negative "
-        "durations and consecutive end_i <= start_{i+1}; timestamps millisecond-aligned (Event's setter guarantees it)",
+        "durations and consecutive end_i <= start_{i+1} (sound/complete/no-dup/output-nonoverlapping/covers/measure), or, "
+        "wider, no two events of a list overlap for a positive time (complete/no-dup/total duration); timestamps "
+        "millisecond-aligned (Event's setter guarantees it); the oracle checks the wide domain",
         "union theorems: non-negative durations, millisecond-aligned timestamps; otherwise arbitrary",
         "'inputs are not modified' (filter_period_intersect) is decided by the before/after oracle (identity of list "
         "elements, deep snapshot of every input event), not by a theorem: partial",
